@@ -313,12 +313,14 @@ def rule_python(r):
             "sasmodels/generate.py", "make_source", "MAGNETIC_PARS = positions of sld parameters minus the two common ones", ms.lineno)
 
 
+from . import extra3 as _x3
 RULES = [
     ("R-C06-weights", 400, "spin-channel weights, both guard cases", make_c_rule("R-C06-weights")),
     ("R-C06-sld", 250, "effective SLD per channel", make_c_rule("R-C06-sld")),
     ("R-C06-loop", 250, "channel loop in the Imagnetic kernel", make_c_rule("R-C06-loop")),
     ("R-C06-slots", 250, "value-vector slot arithmetic", make_c_rule("R-C06-slots")),
     ("R-C06-python", 14, "append order, polar->rectangular conversion, kernel selection", rule_python),
+    ("R-C06-qdir", 40, "mag_sld receives the fetched q components (all magnetic units)", _x3.make_helper_rule("R-C06-qdir")),
 ]
 
 
